@@ -76,6 +76,7 @@ func (*Segment).ConcatPadding
   ensures forall k int :: 0 <= k && k < len(v) ==> result[k] == old(v[k])
   ensures forall k int :: len(v) <= k && k < len(result) ==> result[k] == ' '
   ensures t.Padding == 0 ==> sameslice(result, v)
+  ensures fresh(result) || arrof(result) == arrof(v)
   modifies contents(v)
 
 func (*Segment).TrimLeftSpaceWidth
@@ -330,6 +331,15 @@ func (*blockReader).PeekLine
   ensures !(r.line < r.segmentsLength && r.pos.Start < r.last) ==> result0 == nil
   ensures fresh(result0) || result0 == nil || (arrof(result0) == arrof(r.source) && cap(result0) == len(result0))
   modifies nothing
+
+func (*blockReader).Value
+  requires brBase(r) && seg.Start <= seg.Stop + 1
+  requires r.segmentsLength > 0 && seg.Start >= segs(r)[0].Start
+  ensures fresh(result)
+  modifies nothing
+  loop 0 inv line < r.segmentsLength && 0 <= line && fresh(ret)
+  loop 1 inv fresh(ret) && 0 <= line
+  loop 2 inv fresh(ret) && 0 <= line
 
 func (*blockReader).Advance
   uses lremDef
